@@ -11,7 +11,7 @@ func init() {
 		e.RGuard("walk")
 	})
 	register("C14", Meta{
-		Explanation: "Static agreement of dstutil.Apply with astutil.Apply: the per-type child table equals Walk's (checked by C13 against go/ast) with every field-name literal resolving to the field that is passed and of the right kind; Apply, the Cursor methods, the apply frame and applyList equal golang.org/x/tools v0.1.12 astutil after erasing qualifiers/comments/local names; package files are visited in sorted order. Decides traversal order and cursor bookkeeping as 'same code as upstream'; a semantics-preserving rewrite of a forked function would be reported.",
+		Explanation: "Static agreement of dstutil.Apply with astutil.Apply: the per-type child table equals Walk's (checked by C13 against go/ast) with every field-name literal resolving to the field that is passed and of the right kind; Apply, the Cursor methods, the apply frame and applyList equal golang.org/x/tools v0.1.12 astutil after erasing qualifiers/comments/local names; package files are visited in sorted order. Decides traversal order and cursor bookkeeping as 'same code as upstream' in a canonical form (small helpers inlined, continue/return guards nested, negations and negated if/else normalised, assignment initialisers of if hoisted, named results made explicit, pure single-use locals and zero slice bounds removed, locals renamed); a semantics-preserving rewrite outside these (e.g. a different recover/defer structure) would still be reported.",
 		NotCovered:  []string{"equivalence with upstream when the fork legitimately diverges (then reported, see level_note)"},
 	}, func(e *Env) {
 		e.RCover("apply", e.dstNodeNames(), true)
